@@ -17,6 +17,8 @@ fn exec_for(prop: &str) -> Exec {
         "C16" => props::windows::exec,
         "C06" => props::batch::exec,
         "C07" => props::multigen::exec,
+        "C13" => props::metrics::exec,
+        "C15" => props::corrupt::exec,
         "C05" | "C09" => props::pipe::exec,
         "C01" | "C02" | "C03" | "C04" => props::tok::exec,
         _ => panic!("unknown property {prop}"),
@@ -46,6 +48,8 @@ fn main() {
                 "C16" => props::windows::run_c16(&mut c),
                 "C06" => props::batch::run_c06(&mut c),
                 "C07" => props::multigen::run_c07(&mut c),
+                "C13" => props::metrics::run_c13(&mut c),
+                "C15" => props::corrupt::run_c15(&mut c),
                 "C05" => props::pipe::run_c05(&mut c),
                 "C09" => props::pipe::run_c09(&mut c),
                 "C01" => props::tok::run_c01(&mut c),
